@@ -30,7 +30,7 @@ PARTIAL_KINDS = ("render", "include")
 
 
 class Frame:
-    __slots__ = ("kind", "site", "body", "count", "children", "parent", "chain_counts", "mode")
+    __slots__ = ("kind", "site", "body", "count", "children", "parent", "chain_counts", "mode", "site_max")
 
     def __init__(self, kind: str, site: Any, body: Any, parent: "Frame | None"):
         self.kind = kind
@@ -40,6 +40,7 @@ class Frame:
         self.children: list[Frame] = []
         self.parent = parent
         self.chain_counts: dict[tuple[Any, ...], int] | None = None
+        self.site_max: dict[tuple[Any, ...], int] | None = None
         self.mode = ""
 
 
@@ -114,12 +115,18 @@ class Mon:
             f.mode = "for" if getattr(node, "loop", False) or (kind == "include" and node.var is not None) else ""
         if not st:
             f.chain_counts = {}
+            f.site_max = {}
         st.append(f)
         return f
 
     def post(self, f: Frame) -> None:
         st = self.stack
         assert st and st[-1] is f
+        if f.count > 1 and len(st) > 1:
+            sm = st[0].site_max
+            key = tuple(fr.site for fr in st)
+            if sm is not None and f.count > sm.get(key, 0):
+                sm[key] = f.count
         st.pop()
         if f.parent is not None:
             f.parent.children.append(f)
@@ -147,11 +154,15 @@ class Mon:
         lim = self.limits.get("loop")
         if lim is not None and n > lim and self.loop_over is None:
             frames = st[: idx + 1]
+            sm = st[0].site_max or {}
+            # iterations of each construct on the chain: the current activation's count or
+            # the largest count of an earlier activation at the same position of the nest
+            counts = [max(fr.count, sm.get(chain[: i + 1], 0)) for i, fr in enumerate(frames)]
             self.loop_over = {
                 "count": n,
                 "limit": lim,
-                "chain": [_label(fr) for fr in frames],
-                "counts": [fr.count for fr in frames],
+                "chain": [_label(fr, c) for fr, c in zip(frames, counts)],
+                "counts": counts,
             }
 
     def on_template(self, buf: Any) -> None:
@@ -218,7 +229,7 @@ class Mon:
         L = self.limits.get("out")
         prec = self.bufs.get(id(parent)) if parent is not None else None
         if prec is not None:
-            rec.carry = prec.carry + prec.written
+            rec.carry = prec.written  # what the engine carries: the parent's bytes, one level
             rec.true_carry = prec.true_carry + prec.written
         else:
             rec.carry = 0
@@ -253,6 +264,8 @@ class Mon:
                 "limit": L,
             }
         if t2 > L and t <= L:
+            # bytes along the real buffer chain exceed the limit although every buffer is
+            # within what the engine allows it (nested capture / capture under a blank block)
             self.null_parent_over += 1
 
     # ---------------------------------------------------------------- namespace
@@ -308,9 +321,10 @@ def _ctx_depth(ctx: Any) -> int:
     return d
 
 
-def _label(f: Frame) -> str:
+def _label(f: Frame, count: int | None = None) -> str:
     if f.kind in PARTIAL_KINDS:
-        return f"{f.kind}-for" if (f.mode == "for" and f.count > 1) else f.kind
+        c = f.count if count is None else count
+        return f"{f.kind}-for" if (f.mode == "for" and c > 1) else f.kind
     return f.kind
 
 
